@@ -93,14 +93,16 @@ pub fn build_argv(p: &Params, in_path: &str, alt: Option<&str>, out: &str) -> Bu
 }
 
 /// The library called with the setters the options imply; one thread.
-fn run_library(p: &Params, in_path: &str, alt: Option<&str>, out: &str, out_o: &mut Outcome) -> Result<(), String> {
+fn run_library(p: &Params, in_path: &str, alt: Option<&str>, out: &str, out_o: &mut Outcome, steps: usize) -> Result<(), String> {
     let sub = pstr(p, "sub");
     let k = pu64(p, "k") as usize;
     let in_path = in_path.to_string();
     let alt = alt.map(|x| x.to_string());
     let out = out.to_string();
     let p = p.clone();
-    let r = sim(&Sched::fifo(), &IoSpec::off(), None, None, 1, STEPS_THOROUGH, move || -> Result<(), String> {
+    // sequential reference run: the budget only has to be generous (a k-mer table of a
+    // bulk input is one scheduling point per k-mer)
+    let r = sim(&Sched::fifo(), &IoSpec::off(), None, None, 1, STEPS_THOROUGH + 4 * steps, move || -> Result<(), String> {
         match sub.as_str() {
             "oligo" => {
                 let mut c = composition::oligo::OligoComputer::new(in_path, out, k);
@@ -391,7 +393,7 @@ impl Engine for C15 {
         }
         // ---- the library with the setters the options imply
         let lib_out = path_str(&dir.join("lib_out"));
-        if let Err(e) = run_library(p, &file_in, alt.as_deref(), &lib_out, &mut out) {
+        if let Err(e) = run_library(p, &file_in, alt.as_deref(), &lib_out, &mut out, steps) {
             out.fail("library", e);
             return out;
         }
